@@ -111,19 +111,21 @@ func TestVerifC02StreamGrid(t *testing.T) {
 		shorts = [][]int{{0}, {1}, {7}, {4096}, {1, 7, 3}}
 	}
 	r.Bounds["L"] = lengths
-	r.Bounds["write_splits"] = "whole, 1+rest, rest+1, 4096+rest, 65536+rest, thirds, 0+L+0"
+	r.Bounds["write_splits"] = "whole, 1+rest, rest+1, 4096+rest, 65536+rest, thirds, 0+L+0, thirds with zero-length writes between them [a,0,a,0,0,rest]"
 	r.Bounds["short_read_patterns(cyclic, 0=unlimited)"] = shorts
 	r.Bounds["negotiation"] = c02Negs
 	r.Bounds["stacks"] = c02Stacks
 	r.Bounds["per_stream"] = "request dialer->listener then response listener->dialer (same length, other payload), then Close on both ends"
 	r.Bounds["read_sizes"] = "1, 2, 4096, 65536, L+1, remaining-1, remaining, remaining+1 (L > 200000: 4096, 65536, L+1, remaining; writer runs concurrently)"
+	r.Bounds["zero_length_reads"] = "additionally 4096 with one Read of len(buf)=0 before every Read, remaining-1 with two of them before every second Read (L > 200000: 65536 with one before every Read)"
 	for _, stack := range c02Stacks {
 		for _, neg := range c02Negs {
 			for _, L := range lengths {
 				big := L > 200000
-				pols := memconn.Policies([]int{1, 2, 4096, 65536, L + 1}, []int{-1, 0, 1})
+				pols := append(memconn.Policies([]int{1, 2, 4096, 65536, L + 1}, []int{-1, 0, 1}),
+					memconn.Fixed(4096).WithZeros(1), memconn.Rel(-1).WithZeros(2, 0))
 				if big {
-					pols = memconn.Policies([]int{4096, 65536, L + 1}, []int{0})
+					pols = append(memconn.Policies([]int{4096, 65536, L + 1}, []int{0}), memconn.Fixed(65536).WithZeros(1))
 				}
 				splits := memconn.Splits(L, []int{4096, 65536}, 0)
 				for _, sp := range splits {
@@ -174,7 +176,7 @@ func TestVerifC02StreamGrid(t *testing.T) {
 													return
 												}
 											}
-											ct := &memconn.Concurrent{W: w, R: rd, Payload: payload, Writes: sp.Sizes, Buf: b.Buf,
+											ct := &memconn.Concurrent{W: w, R: rd, Payload: payload, Writes: sp.Sizes, Buf: b.Buf, Zeros: pol.Zeros,
 												ReadSize: func(received int) int { return pol.Size(L - received) }}
 											ct.Arm = rd.arm
 											prob = ct.Run()
@@ -274,11 +276,17 @@ func TestVerifC02StreamInterleave(t *testing.T) {
 	}
 	shorts := [][]int{{0}, {7}}
 	readers := []string{"after-all:in-order", "after-all:reverse", "after-each-chunk"}
-	pols := []memconn.Policy{memconn.Fixed(70001), memconn.Fixed(1000)}
+	// the third policy interleaves zero-length Reads (one with len(buf)=0 before every Read)
+	pols := []memconn.Policy{memconn.Fixed(70001), memconn.Fixed(1000), memconn.Fixed(1000).WithZeros(1)}
 	if thorough {
 		shorts = append(shorts, []int{1})
 		pols = append(pols, memconn.Fixed(1), memconn.Rel(-1))
 	}
+	var ipn []string
+	for _, p := range pols {
+		ipn = append(ipn, p.Name)
+	}
+	r.Bounds["read_policies"] = ipn
 	var sd []string
 	for _, s := range shapes {
 		sd = append(sd, fmt.Sprintf("%d streams x %d chunks %v: %d orders", s.n, s.k, s.chunks, len(c02Orders(s.n, s.k))))
@@ -430,11 +438,12 @@ func TestVerifC02StreamHalfClose(t *testing.T) {
 	defer b.Finish()
 	thorough := vrep.Thorough()
 	sizes := [][2]int{{1, 1}, {4096, 1}, {1, 65536}, {70000, 70000}}
-	pols := []memconn.Policy{memconn.Fixed(1), memconn.Fixed(4096), memconn.Rel(0), memconn.Rel(1)}
+	// the last policy interleaves zero-length Reads (len(buf)=0), also around the half-close and as the "one more Read"
+	pols := []memconn.Policy{memconn.Fixed(1), memconn.Fixed(4096), memconn.Rel(0), memconn.Rel(1), memconn.Fixed(4096).WithZeros(1)}
 	shorts := [][]int{{0}, {7}}
 	if thorough {
 		sizes = append(sizes, [2]int{4068, 4069}, [2]int{65535, 3}, [2]int{100000, 120000})
-		pols = append(pols, memconn.Fixed(2), memconn.Fixed(65536), memconn.Rel(-1))
+		pols = append(pols, memconn.Fixed(2), memconn.Fixed(65536), memconn.Rel(-1), memconn.Rel(0).WithZeros(2, 0))
 		shorts = append(shorts, []int{1})
 	}
 	r.Bounds["scripts(cw/sw = dialer/listener Write, cc/sc = CloseWrite, cr/sr = read all written so far, ce/se = one more Read)"] = c02HalfCloseScripts
@@ -611,10 +620,10 @@ func TestVerifC02StreamConcurrent(t *testing.T) {
 	b := memconn.NewBook(r)
 	defer b.Finish()
 	thorough := vrep.Thorough()
-	pols := []memconn.Policy{memconn.Fixed(4096), memconn.Fixed(65536), memconn.Fixed(300001)}
+	pols := []memconn.Policy{memconn.Fixed(4096), memconn.Fixed(65536), memconn.Fixed(300001), memconn.Fixed(4096).WithZeros(1)}
 	shorts := [][]int{{0}, {7}}
 	if thorough {
-		pols = append(pols, memconn.Fixed(1000), memconn.Fixed(17))
+		pols = append(pols, memconn.Fixed(1000), memconn.Fixed(17), memconn.Fixed(65536).WithZeros(0, 2))
 		shorts = append(shorts, []int{1}, []int{4096})
 	}
 	r.Bounds["shape"] = "3 streams, each: dialer->listener 300000 bytes (writes of 100000) and listener->dialer 100000 bytes (writes of 33333/33333/33334) at the same time; 12 goroutines; the interleaving is the Go scheduler's (not enumerated)"
@@ -654,9 +663,9 @@ func TestVerifC02StreamConcurrent(t *testing.T) {
 							if prob = p.transfer(true, []byte{byte(s)}, []int{1}, false, memconn.Fixed(4), nil).Run(); prob != nil {
 								return
 							}
-							up := &memconn.Concurrent{W: c02End{p, false}, R: c02End{p, true}, Payload: memconn.Pattern(uint64(0xC0C000+s), 300000), Writes: []int{100000, 100000, 100000},
+							up := &memconn.Concurrent{W: c02End{p, false}, R: c02End{p, true}, Payload: memconn.Pattern(uint64(0xC0C000+s), 300000), Writes: []int{100000, 100000, 100000}, Zeros: pol.Zeros,
 								ReadSize: func(int) int { return pol.D }, Arm: c02End{p, true}.arm}
-							down := &memconn.Concurrent{W: c02End{p, true}, R: c02End{p, false}, Payload: memconn.Pattern(uint64(0xC0D000+s), 100000), Writes: []int{33333, 33333, 33334},
+							down := &memconn.Concurrent{W: c02End{p, true}, R: c02End{p, false}, Payload: memconn.Pattern(uint64(0xC0D000+s), 100000), Writes: []int{33333, 33333, 33334}, Zeros: pol.Zeros,
 								ReadSize: func(int) int { return pol.D }, Arm: c02End{p, false}.arm}
 							s := s
 							go func() { ch <- res{fmt.Sprintf("stream %d dialer->listener", s), up.Run()} }()
@@ -701,12 +710,12 @@ func TestVerifC02StreamListenerFirst(t *testing.T) {
 	r.Bounds["shape"] = "fresh stream; the dialer's first call is Read (in the harness goroutine) while the listener - as soon as the stream was dispatched to its handler - writes L bytes; then the dialer answers with L bytes"
 	r.Bounds["L"] = lengths
 	r.Bounds["short_read_patterns"] = shorts
-	r.Bounds["read_sizes"] = "1 (L <= 70000), 4096, L+1"
+	r.Bounds["read_sizes"] = "1 (L <= 70000), 4096, L+1, and 4096 with a zero-length Read (len(buf)=0) before every Read: the dialer's first call on the fresh stream is then a Read with an empty buffer"
 	for _, stack := range c02Stacks {
 		for _, neg := range c02Negs {
 			for _, L := range lengths {
 				for _, short := range shorts {
-					for _, pol := range memconn.Policies([]int{1, 4096, L + 1}, nil) {
+					for _, pol := range append(memconn.Policies([]int{1, 4096, L + 1}, nil), memconn.Fixed(4096).WithZeros(1)) {
 						if pol.D == 1 && L > 70000 {
 							continue
 						}
@@ -733,7 +742,7 @@ func TestVerifC02StreamListenerFirst(t *testing.T) {
 							}
 							c.Step = "listener->dialer, dialer reads first"
 							third := L / 3
-							down := &memconn.Concurrent{W: c02End{p, true}, R: c02End{p, false}, Payload: memconn.Pattern(0xF1257, L), Writes: []int{third, third, L - 2*third},
+							down := &memconn.Concurrent{W: c02End{p, true}, R: c02End{p, false}, Payload: memconn.Pattern(0xF1257, L), Writes: []int{third, third, L - 2*third}, Zeros: pol.Zeros,
 								ReadSize: func(int) int { return pol.D }, Arm: c02End{p, false}.arm, Buf: b.Buf}
 							if prob = down.Run(); prob != nil {
 								return
@@ -744,7 +753,7 @@ func TestVerifC02StreamListenerFirst(t *testing.T) {
 								tr := p.transfer(true, memconn.Pattern(0xF1258, L), []int{L}, false, pol, b.Buf)
 								prob = tr.Run()
 							} else {
-								up := &memconn.Concurrent{W: c02End{p, false}, R: c02End{p, true}, Payload: memconn.Pattern(0xF1258, L), Writes: []int{L},
+								up := &memconn.Concurrent{W: c02End{p, false}, R: c02End{p, true}, Payload: memconn.Pattern(0xF1258, L), Writes: []int{L}, Zeros: pol.Zeros,
 									ReadSize: func(int) int { return pol.D }, Arm: c02End{p, true}.arm, Buf: b.Buf}
 								prob = up.Run()
 							}
